@@ -386,6 +386,8 @@ def describe(body, op, depth=0, names=False):
             return "K%d" % v
         if "fn" in k:
             return "fn:" + k["fn"]
+        if k.get("from"):
+            return "const:" + k["from"].replace("preflate_rs::", "")
         return "const<%s>" % k["ty"]
     p = op_place(op) if ("c" in op or "m" in op) else (op if "l" in op else None)
     if p is None:
@@ -449,13 +451,15 @@ def _desc_local(body, l, depth):
 
 def _describe_named(body, op, depth=0):
     k = op_const(op) if isinstance(op, dict) and isinstance(op.get("k"), dict) and "ty" in op.get("k", {}) else None
-    if k is not None or depth > 10:
-        return describe(body, op, 12 if depth > 10 else 0)
+    if k is not None or depth > 30:
+        return describe(body, op, 12 if depth > 30 else 0)
     p = op_place(op) if ("c" in op or "m" in op) else (op if "l" in op else None)
     if p is None:
         return "?"
     l = p["l"]
     nm = body.local_name(l)
+    if nm in ("val", "residual"):      # bindings introduced by the `?` desugaring
+        nm = None
     if nm and not p["p"]:
         return "var(%s)" % nm
     if p["p"]:
@@ -466,7 +470,11 @@ def _describe_named(body, op, depth=0):
             elif isinstance(e, dict) and "i" in e:
                 base += "[" + _describe_named(body, {"l": e["i"], "p": []}, depth + 1) + "]"
             elif isinstance(e, dict) and "dc" in e:
+                if e.get("n") in ("Continue", "Ok", "Some") and not nm:
+                    continue
                 base += " as " + str(e.get("n"))
+            elif isinstance(e, dict) and "f" in e and e.get("n") == "0" and base.endswith(")") and not nm:
+                pass
         return base
     ds = body.defs(l)
     if len(ds) != 1:
